@@ -60,7 +60,7 @@ def run(pid, cfg, failed, findings, repo, scratch):
         fnc = replay_arith.replay_float if fam == "arith_float" else replay_arith.replay_cmp
         for fn in sorted(set(_fn_of(ob) for ob in by_ob) | set(ob.split("::")[-1] for ob in by_ob)):
             fails_by_fn[fn] = fnc(repo, [fn], scratch, log, binary=binary) if binary else None
-    elif fam in ("heap",):
+    elif fam in ("heap", "charreader"):
         import replay_rust
         fails_by_fn = replay_rust.replay_all(repo, by_ob, scratch, log, fam)
     elif fam:
@@ -133,7 +133,7 @@ def rerun(pid, path, repo):
             print("%s -> %s (expected %s)%s" % (i["goal"], got, exp, "" if ok else "  STILL FAILS"))
             bad += 0 if ok else 1
         return 1 if bad else 0
-    if fam in ("heap",):
+    if fam in ("heap", "charreader"):
         import replay_rust
         log = []
         fails = replay_rust.run_family(repo, fam, log)
